@@ -2,6 +2,7 @@ import XeofsProofs.Bridge
 import XeofsProofs.Lemmas.Whiten
 import XeofsProofs.Lemmas.SpecPow
 import XeofsModel.Generated.Facts
+import XeofsProofs.Lemmas.EeofModel
 /-!
 # C10 — named methods coincide with the general method at their special parameter values
 -/
@@ -72,5 +73,19 @@ theorem src_pca_component_maps :
 
 /-- source obligation: `n_pca_modes = "all"` resolves to the full rank bound `min(shape)` -/
 theorem src_pca_all_is_full_rank : Gen.pcaAllModesResolution.contains "min(X.shape)" = true ∧ Gen.pcaAllModesResolution.length = 2 := by decide
+
+/-! ### ExtendedEOF: the delay-embedded matrix, on the executable model `XM.embedMatrix` (generated `eeofSamplesKept`, `eeofShift`) -/
+
+/-- every kept row reads existing samples only, and column `e·p + f` of row `t` is `X[t + e·tau, f]` -/
+theorem model_embed_entry {α : Type} [Zero α] {n p : ℕ} (X : XM.Mat n p α) (tau emb : ℕ) (t : Fin (Gen.eeofSamplesKept n emb tau))
+    (e : Fin emb) (f : Fin p) (hc : e.val * p + f.val < emb * p) :
+    (XM.embedMatrix X tau emb).get t ⟨e.val * p + f.val, hc⟩
+      = X.get ⟨t.val + Gen.eeofShift e.val tau, XP.EeofM.kept_rows_in_range tau emb t e⟩ f :=
+  XP.EeofM.embed_entry X tau emb t e f hc
+
+/-- **eeof_single_embedding on the model**: with one copy nothing is shifted and every sample is kept -/
+theorem model_single_embedding_keeps_everything (n tau : ℕ) :
+    Gen.eeofSamplesKept n 1 tau = n ∧ Gen.eeofShift 0 tau = 0 := by
+  simp [Gen.eeofSamplesKept, Gen.eeofShift]
 
 end C10
